@@ -7,6 +7,7 @@ import (
 	"os"
 	"path/filepath"
 	"sync/atomic"
+	"syscall"
 
 	"github.com/spf13/afero"
 
@@ -348,11 +349,13 @@ func (m *monitor) runFileCase(fc fileCase) (judged int, nontrivial bool) {
 			}
 		case "backend-read-error":
 			j := rng.IntN(2)
+			// the one read which fails does so for various reasons, transient ones (a deadline of the device, an i/o timeout) included
+			injected := []error{errInjected, os.ErrDeadlineExceeded, fmt.Errorf("read %s: i/o timeout", filepath.Base(p1)), syscall.ETIMEDOUT, syscall.EINTR}[rng.IntN(5)]
 			var reads, delivered atomic.Int64
 			mon.Before = func(e *fsmon.Event) {
 				if e.Op == fsmon.OpFRead && filepath.Clean(e.Path) == filepath.Clean(p1) {
 					if reads.Add(1)-1 == int64(j) {
-						e.Inject = errInjected
+						e.Inject = injected
 					}
 				}
 			}
@@ -361,10 +364,17 @@ func (m *monitor) runFileCase(fc fileCase) (judged int, nontrivial bool) {
 					delivered.Add(int64(e.N))
 				}
 			}
-			_, err := fh.CalculateFile(monFS, p1)
+			g, err := fh.CalculateFile(monFS, p1)
 			mon.Before, mon.After = nil, nil
+			if err == nil {
+				// the failure was not reported: whatever the library did about it (ignored it, tried again), the digest it
+				// vouches for must be the one of the file
+				m.swallowedBackendFaults.Add(1)
+				judge("IFileHash.CalculateFile#after-a-backend-read-fault-it-did-not-report", t, p1, g, nil)
+				return
+			}
 			t.note(err != nil, false, delivered.Load() > 0)
-			ev.Note = fmt.Sprintf("File.Read #%d of the backend fails; delivered=%d", j, delivered.Load())
+			ev.Note = fmt.Sprintf("File.Read #%d of the backend fails (%v); delivered=%d", j, injected, delivered.Load())
 			ev.Err = errStr(err)
 			if err != nil {
 				m.fileFailures.add(fc.Backend + "/" + kind)
